@@ -360,6 +360,7 @@ _EXT_RAISES: Dict[str, List[ExcTok]] = {
     "builtins.float": [("builtins.ValueError", True), ("builtins.TypeError", True)],
     "builtins.next": [("builtins.StopIteration", True)],
     "inspect.signature": [("builtins.ValueError", True), ("builtins.TypeError", True)],
+    "shlex.split": [("builtins.ValueError", True)],  # unbalanced quotes, trailing backslash
     "Path.unlink": [("builtins.OSError", False)],
     # what a ControlParser raises on purpose (exact tokens: routed to the handler that names them) + anything else
     "argparse.ArgumentParser.parse_args": [("argparse.ArgumentError", True), ("exceptions.HelpRequested", True), ("exceptions.ParserError", True), (EXCEPTION, False)],
